@@ -70,16 +70,19 @@ Module ZOrder <: TotalLeBool.
 End ZOrder.
 Module ZSort := Sort ZOrder.
 
-(** a delivered ranking is written compactly: [inl (v, k)] stands for the k consecutive singleton buckets {v}, {v+1}, ..., {v+k-1};
-    [inr b] is the bucket b *)
+(** a delivered ranking is written compactly: [Run v k] stands for the k consecutive singleton buckets {v}, {v+1}, ..., {v+k-1};
+    [Bucket b] is the bucket b; [Singles l] stands for one singleton bucket per element of l (a constructor without implicit arguments:
+    a literal of tens of thousands of [inr [x]] costs the type checker quadratic time) *)
+Inductive bitem := Run (v k : Z) | Bucket (b : list Z) | Singles (l : list Z).
 Fixpoint ziota (k : nat) (v : Z) : list Z := match k with O => [] | S k' => v :: ziota k' (v + 1) end.   (* v, v+1, ..., v+k-1 *)
-Definition expand_item (it : Z * Z + list Z) : list (list Z) :=
+Definition expand_item (it : bitem) : list (list Z) :=
   match it with
-  | inl (v, k) => map (fun x => [x]) (ziota (Z.to_nat k) v)
-  | inr b => [b]
+  | Run v k => map (fun x => [x]) (ziota (Z.to_nat k) v)
+  | Bucket b => [b]
+  | Singles l => map (fun x => [x]) l
   end.
 
-Definition judge_big (c : Z * Z * nat * list (list (Z * Z + list Z))) : nat :=
+Definition judge_big (c : Z * Z * nat * list (list bitem)) : nat :=
   let '(lo, n, m, rks) := c in
   let expected := ziota (Z.to_nat n) lo in
   let spec := Nat.eqb (length rks) m &&
